@@ -82,6 +82,7 @@ class Sim:
         self.kind = kind
         self.events = []
         self.close_raised = []
+        self.recv_loop_iters = []
         self.stopping = False
         self.connect_script = list(connect_script or ["ok"])     # per attempt: "ok" | "refuse" | ("slow", n_ticks) then ok
         self.attempts = 0
@@ -170,6 +171,8 @@ class Sim:
                 await sim._real_sleep(0.05)
             if sim.status_mode == "close-on-disconnect" and s.name == "DISCONNECTED":
                 await c.close()          # the user gives up on the first fault: close() from inside the status callback
+            if sim.status_mode == "connect-on-disconnect" and s.name == "DISCONNECTED":
+                await c.connect()        # "on disconnect, reconnect" written by the user although the client does it by itself
         c.set_status_callback(status_cb)
 
         orig_put = c.queue.put
@@ -200,6 +203,11 @@ class Sim:
                 await sim._real_sleep(0.05)
             if mode == "close":
                 await c.close()
+            if mode == "cancelled":
+                # the callback awaits something that has been cancelled: CancelledError escapes from it
+                t = asyncio.ensure_future(sim._real_sleep(10))
+                t.cancel()
+                await t
         c.set_receive_callback(recv_cb)
         orig_loop = c._receive_loop
 
@@ -224,6 +232,7 @@ class Sim:
             avail1 = (len(reader._buffer) if reader is not None else 0) + (len(c._buffer) if getattr(c, "_buffer", None) is not None else 0)
             progress = loop.iterations > it0 or avail1 < avail0
             sim.emit(f"recvIter {conn} {1 if progress else 0}")
+            sim.recv_loop_iters.append(loop.iterations)
             sim.idle_iters = 0 if progress else sim.idle_iters + 1
             if sim.idle_iters > 200:
                 sim.emit("STALL")
@@ -241,6 +250,11 @@ class Sim:
         orig_connect = c.connect
 
         async def connect():
+            if asyncio.current_task() is getattr(c, "_receive_task", None) and c._receive_task is not None:
+                # connect() from the status callback that the receive task runs: one event, it must return at once
+                sim.emit("connCallInRecv")
+                await orig_connect()
+                return
             sim.emit("connCall")
             try:
                 await orig_connect()
